@@ -1,4 +1,6 @@
 import NopModel.Lemmas.ConsumeDec
+import NopModel.Lemmas.LangSound
+import NopModel.Lemmas.LangBound
 /-! C02 — hostile input on bounded readers. **Partial**: the theorems cover the logic that
 makes the code safe (forward-only consumption inside the source, capacity checks before any
 element store, `Ensure` before any length-driven allocation, totality); actual memory
@@ -124,6 +126,26 @@ theorem C02_ensure_blocks {α} (k : Unit → M α) (s : Src) (n : Nat) (hc : s.f
   by_cases hf : framesOk n s.frames = true
   · simp [hf, pre_clean hc, hchk, hn, heof]
   · simp [hf]
+
+/-- **What a successful read builds is bounded by what it consumed.** For every type there is a
+constant (`Ty.allocK`: nesting depth of sum types, number of table slots) such that, whatever
+the bytes, the destination's prior contents and the reader configuration, a successful `Read`
+that consumed `n` bytes returns a value of at most `allocK t * n` nodes (scalars, elements,
+containers, table slots): no length field, count, id or index in the input can make the
+decoder build more than a constant multiple of the bytes it was actually given. -/
+theorem C02_allocation_bounded (t : Ty) (prior : Val) (s : Src) (v : Val) (s' : Src) (hc : s.fault = .none)
+    (h : decInto t prior s = (.ok v, s')) :
+    v.nodes ≤ t.allocK * (s.bytes.length - s'.bytes.length) := by
+  have hs : Snd (decInto t prior) (fun hs v bs => Lang hs t v bs) := by
+    unfold decInto
+    exact Snd.mono (Snd.withPrefix (fun p => snd_decPayload t p prior)) (fun _ _ _ h => h)
+  obtain ⟨bs, rest, hb, hs', _, hl⟩ := hs s v s' hc h
+  have hlen : s.bytes.length - s'.bytes.length = bs.length := by
+    have h1 : s'.bytes.length = s.bytes.length - bs.length := by rw [hs']; simp
+    have h2 : s.bytes.length = bs.length + rest.length := by rw [hb]; simp
+    omega
+  rw [hlen]
+  exact (bnd_LPre_of (bnd_LangP s.handles t) v bs hl).1
 
 /-- non-vacuity: an inflated length (2^64-1) in front of 2 bytes is refused with
 ReadLimitReached by a buffer reader -/
